@@ -57,6 +57,8 @@ let enc_of arch oc = match arch with
   | "arm64" -> enc_arm64 false hI_FIXED
   | "arm64p" -> enc_arm64 false hI_PINNED
   | "arm64m" -> enc_arm64 true hI_FIXED
+  | "arm" -> enc_arm (zi 12) (zi 7) (zi 0) (zi 0)          (* repaired A32 scratch r12; Thumb still r7 *)
+  | "armp" -> enc_arm (zi 9) (zi 7) (zi 0) (zi 0)          (* pinned: r9 / r7 *)
   | _ -> failwith ("unknown arch " ^ arch)
 
 module Monitor_glue = struct
@@ -173,6 +175,20 @@ let handle (t : string list) : string =
      injector lifetimes against the kernel answers observed in the implementation's run *)
   | ["life"; arch; oc; allp; reset; lifo; overlay; answers; symtab; lifetimes] ->
     life arch (oc = "1") (allp = "1") (reset = "1") (lifo = "1") overlay answers symtab lifetimes
+  (* armreach <writes> <src> <fake> : execute the patch the implementation wrote with the A32/T32 semantics *)
+  | ["armreach"; ws; src; fake] ->
+    let m = List.fold_left (fun m (a, bs) -> write m a bs) mem0 (parse_writes ws) in
+    let regs0 = fun r -> Z.add (zh "77000000") r in
+    let s = zh src and f = zh fake in
+    let odd z = not (Z.eqb (Z.modulo z (zi 2)) Z0) in
+    let dst = if odd f then Z.sub f (zi 1) else f in
+    let rec go fuel steps (st : rstate) =
+      if Z.eqb st.rpc dst && steps > 0 then
+        let ch = List.filter (fun r -> not (Z.eqb (st.rr (zi r)) (regs0 (zi r)))) (List.init 15 (fun i -> i)) in
+        Printf.sprintf "REACHED %d thumb=%b [%s]" steps st.rthumb (String.concat "," (List.map (fun r -> "r" ^ string_of_int r) ch))
+      else if fuel = 0 then "TIMEOUT " ^ hz st.rpc
+      else match rstep st with None -> Printf.sprintf "STUCK %s %d" (hz st.rpc) steps | Some st' -> go (fuel - 1) (steps + 1) st' in
+    go 6 0 { rpc = (if odd s then Z.sub s (zi 1) else s); rthumb = odd s; rr = regs0; rmem = m }
   (* a64dec <word-hex> : the Coq decoder's reading of one instruction word *)
   | ["a64dec"; w] ->
     (match adecode (zh w) with
